@@ -435,6 +435,69 @@ def run_rulesets(ctx, seed, index):
                                                   'b': texts[b]})
 
 
+def run_effective(ctx, di, history):
+    """The rule set an enforcer actually works with -- registered defaults,
+    deprecated predecessors OR-ed in, file and policy.d overrides, after a
+    load or after an override was removed again -- is a rule set like any
+    other: dumping it and loading the dump gives the same printed rules and
+    the same decisions."""
+    from oslo_policy import policy
+    common.set_ctx(ctx)
+    new_cs, old_cs = [('role:a or role:b', 'role:old'),
+                      ('role:a and role:b', 'role:old or role:a'),
+                      ('not role:a', 'role:old'),
+                      ('role:a', 'role:a and role:old')][di]
+    graceful = bool(ctx.bool('enforce_new_defaults_off'))
+    dep = policy.DeprecatedRule('p', old_cs, deprecated_reason='r',
+                                deprecated_since='s')
+    dep2 = policy.DeprecatedRule('q_old', 'role:old', deprecated_reason='r',
+                                 deprecated_since='s')
+    defaults = [policy.RuleDefault('p', new_cs, deprecated_rule=dep),
+                policy.RuleDefault('q', 'role:b or role:c',
+                                   deprecated_rule=dep2),
+                policy.RuleDefault('plain', 'rule:p and not role:c')]
+    env = common.PolicyEnv()
+    try:
+        env.write('policy.yaml', {'other': 'role:c'})
+        if history in ('override-removed', 'override-kept'):
+            env.write('policy.d/o.yaml', {'p': 'role:c', 'q': 'role:a'})
+        enf = env.enforcer(defaults=defaults,
+                           enforce_new_defaults=not graceful)
+        enf.load_rules()
+        if history == 'override-removed':
+            env.remove('policy.d/o.yaml')
+            enf.load_rules()
+        elif history == 'forced-reloads':
+            enf.load_rules(force_reload=True)
+            enf.load_rules(force_reload=True)
+        live = enf.rules
+        dumped = str(live)
+        again = policy.Rules.load(dumped)
+        want_p = {k: str(v) for k, v in live.items()}
+        got_p = {k: str(v) for k, v in again.items()}
+        ctx.observe('dumped', dumped)
+        ctx.cover('effective:' + history)
+        det = {'new': new_cs, 'old': old_cs, 'history': history,
+               'enforce_new_defaults': not graceful, 'dumped': dumped}
+        ctx.require(got_p == want_p, 'effective:rule-text-changed',
+                    detail=dict(det, want=want_p, got=got_p))
+        e2 = common.mk_enforcer(rules=again)
+        creds = {'roles': ctx.roles('role', ['a', 'b', 'c', 'old'])}
+        for name in sorted(want_p):
+            a = ctx.summarize(lambda: bool(live[name]({}, creds, enf)))
+            b = common.decision(ctx, e2, name, creds)
+            ctx.require_equiv(b, a, 'effective:meaning-changed',
+                              detail=dict(det, name=name))
+    finally:
+        env.close()
+
+
+def cubes_effective(tier, seed):
+    return [{'di': d, 'history': h} for d in range(4)
+            for h in ('one-load', 'override-kept', 'override-removed',
+                      'forced-reloads')]
+
+
 MUT_OPS = ['setitem', 'update', 'update-kw', 'pop', 'del', 'setdefault',
            'ior', 'clear-update', 'popitem', 'set_rules-merge',
            'set_rules-overwrite']
@@ -527,13 +590,15 @@ HARNESSES = {
     'nested': {'fn': run_nested, 'cubes': cubes_nested},
     'rulesets': {'fn': run_rulesets, 'cubes': cubes_rulesets},
     'mutate': {'fn': run_mutate, 'cubes': cubes_mutate},
+    'effective': {'fn': run_effective, 'cubes': cubes_effective},
     'http': {'fn': run_http, 'cubes': cubes_http},
     'equal': {'fn': run_equal, 'cubes': cubes_equal},
 }
 REQUIRED_COVER = ['tokens:roundtrip', 'lists:roundtrip', 'nested:roundtrip',
                   'rulesets:roundtrip', 'rulesets:equal-defaults',
                   'http:roundtrip', 'equal:compared',
-                  'mutate:checked']
+                  'mutate:checked', 'effective:one-load',
+                  'effective:override-removed']
 
 
 def cube_weight(h, p):
